@@ -160,7 +160,8 @@ def run_open_image(repo, use_cache, create_cache, cache, rpc, create_fails=False
     def transform_metadata(I_, a, kw):
         R.calls.append(("transform_metadata", {}))
         R.fresh = Obj("Group", OrderedDict(path=Const("/"), url=Const(None), data=DictS({"time": Obj("Variable", OrderedDict(dims=ListLit([Const("rows")]), data=ListLit([]), attrs=DictS()))}),
-                                           attrs=DictS({"coordinates": ListLit([Const("time")])})))
+                                           attrs=DictS(OrderedDict([("coordinates", ListLit([Const("time")])), ("scan_id", Const(0)), ("sar_channel_id", Const(1)), ("sensor_id", Const("ALOS2"))]))))
+        R.fresh_attrs = OrderedDict(R.fresh.fields["attrs"].items)
         return TupS([R.fresh, DictS(OrderedDict(type_code=Const("IU2"), shape=TupS([Const(6), Const(5)]), dtype=Const("uint16"), byte_ranges=byte_ranges))])
     sc.vars["transform_metadata"] = Fn("py", impl=transform_metadata, name="transform_metadata")
 
@@ -238,6 +239,13 @@ def judge(R, use_cache, create_cache, cache, rpc, create_fails=False):
         path = g.fields.get("path").v if isinstance(g, Obj) and isinstance(g.fields.get("path"), Const) else None
         out.append(("group", ok_g and dims == ["rows", "columns"] and path == "HH_scan3", "the group of the parsed records is returned with the pixel variable (rows, columns) under the name derived from the file name",
                     f"{sit}: returned group has data dims {dims}, path {path!r}" + ("" if g is R.fresh else "; it is not the group built from the parsed records")))
+        # what the line records say about the file (scan id, channel, sensor: the group attributes transform_metadata built) is still what the
+        # returned group says - further attributes may be added, none of these may be replaced or dropped
+        ga = g.fields.get("attrs") if isinstance(g, Obj) else None
+        changed = [k for k, v in getattr(R, "fresh_attrs", {}).items() if not (isinstance(ga, DictS) and ga.items.get(k) is v)]
+        shown = {k: (repr(ga.items.get(k))[:30] if isinstance(ga, DictS) and k in ga.items else "<missing>") for k in changed[:3]}
+        out.append(("attrs", not changed, "the attributes built from the line records are still those of the returned group",
+                    f"{sit}: the returned group's attributes {changed[:3]} are no longer what the line records gave ({shown}): a value derived from something else than the records replaces or drops them"))
     cc = [c[1] for c in R.calls if c[0] == "create_cache"]
     want = 1 if create_cache else 0
     out.append(("write", len(cc) == want, "the cache is written exactly when create_cache is set",
